@@ -124,7 +124,7 @@ def main():
     n = len(all_obs)
     n_ok = sum(1 for o in all_obs if o["ok"])
     print(f"== {pid} [{tier}] configs={configs} obligations={n} discharged={n_ok} "
-          f"crates={len(stats['crates_loaded'])} bodies={stats['bodies']} call_sites={stats['call_sites_indexed']}")
+          f"crates={len(stats['crates_loaded'])} bodies={stats['bodies_analysed']}/{stats['bodies']} call_sites={stats['call_sites_indexed']}")
     for ob in all_obs:
         if args.verbose or not ob["ok"]:
             mark = "ok  " if ob["ok"] else "FAIL"
@@ -188,7 +188,8 @@ def write_evidence(pid, mod, tier, seed, obs, violations, known_hit, stats, stat
             "configurations": configs,
             "facts_tree_hash": {c: states[c].get("tree") for c in configs},
             "crates_loaded": stats["crates_loaded"],
-            "bodies_loaded": stats["bodies"],
+            "bodies_in_loaded_crates": stats["bodies"],
+            "bodies_analysed": stats["bodies_analysed"],
             "call_sites_indexed": stats["call_sites_indexed"],
             "rule_kinds": sorted({o["kind"] for o in obs}),
             "known_findings_reported": sorted({o["key"] for o in known_hit}),
